@@ -138,6 +138,47 @@ func c12Scenarios(tier string) []Scenario {
 			}
 		}
 	}
+	// a transmission fails (plain error / timeout-typed error as after an expired write deadline): the call ends there and
+	// then with that error - a failed write is not an unanswered try
+	for _, v6 := range []bool{false, true} {
+		for _, T := range []int64{1, 10} {
+			for _, n := range []int{-1, 1, 2, 3, 4} {
+				kmax := n
+				if n < 0 || n > 3 {
+					kmax = 3
+				}
+				for k := 0; k < kmax; k++ {
+					for fk := 0; fk < 2; fk++ {
+						s := &ClientScenario{V6: v6, T: T, Tries: n, BufCap: -1, CloseAt: -1, Bound: 0, FailWrites: []int{k}, FailKind: fk,
+							Calls: []CallSpec{{ID: 0, Match: MatchGood, CancelAt: -1, After: -1}}}
+						if n < 0 {
+							s.Horizon = T * 1023
+						}
+						add(s, "transmission-fails")
+					}
+				}
+			}
+		}
+	}
+	// logging configurations with a request whose option values are in no canonical order: every transmission is still
+	// the request's encoding (the loggers print the message around each transmission)
+	for _, v6 := range []bool{false, true} {
+		for n := 1; n <= 3; n++ {
+			for lk := 0; lk < 3; lk++ {
+				if lk == 2 && v6 {
+					continue
+				}
+				for _, good := range []bool{false, true} {
+					s := &ClientScenario{V6: v6, T: 2, Tries: n, BufCap: -1, CloseAt: -1, Bound: 0, Log: true, LogKind: lk,
+						Calls: []CallSpec{{ID: 0, Match: MatchGood, CancelAt: -1, After: -1, Pkt: 3}}}
+					if good {
+						s.Dgs = []DgSpec{{At: 2*((int64(1)<<uint(n-1))-1) + 1, Kind: DgGood, ID: 0}}
+					}
+					add(s, "logging")
+				}
+			}
+		}
+	}
 	// preemption-bounded schedules: every scenario with at most 3 tries also at bound 1 (quick) / 2 (thorough)
 	b := 1
 	if tier == "thorough" {
